@@ -22,4 +22,10 @@ theorem tie_exact_or_error (b : Bytes) (v : Int) :
 theorem tie_jsbyte_no_wrap (b : Bytes) (l : List Nat)
     (h : decodeBytes Nv.Gen.C20.cfg.byte Nv.Gen.C20.cfg.byteConv b = .ok l) : denotesBytes b l ∧ ∀ x ∈ l, x ≤ 255 :=
   ⟨jsbyte_exact_or_error _ tie_cfg_proved b l h, jsbyte_no_wrap _ tie_cfg_proved b l h⟩
+
+/-- the regenerated SQL scanners never answer a silent zero or a wrapped number -/
+theorem tie_scan_exact_or_error (v : SqlVal) (ts : Int) (h : scanInt Nv.Gen.C20.cfg.scanInt v = .ok ts) : sqlDenotes v ts := by
+  have hs : Nv.Gen.C20.cfg.scanInt = .strict := tie_cfg_proved.2.2.2.2.2.2.2.2.2.2.2.2.2.2.2.2.2.2.2.2.2.2.1
+  rw [hs] at h
+  exact scan_exact_or_error v ts h
 end Nv.C20
